@@ -5,6 +5,7 @@ import (
 	"go/ast"
 	"go/token"
 	"go/types"
+	"sort"
 	"strings"
 
 	"golang.org/x/tools/go/ssa"
@@ -223,6 +224,12 @@ func runC14(p *core.Prog, r *core.Report, tier string) {
 		}
 	}
 	r.Floor("C14.i subscription info calculations", nI, 1)
+
+	// ---- (k): chain constants are read under their own names: a field that is named after a chain-specification
+	// constant is filled from that constant (the attestation aggregator's TARGET_AGGREGATORS_PER_COMMITTEE is not the
+	// sync committee's TARGET_AGGREGATORS_PER_SYNC_SUBCOMMITTEE, although both are 16 on the public networks) ----
+	nSpec := checkSpecConstantNames(p, r, "C14.k")
+	r.Floor("C14.k fields filled from chain constants", nSpec, 8)
 
 	// ---- (d): aggregation scheduling ----
 	nD := 0
@@ -822,4 +829,38 @@ func checkSkipConditions(p *core.Prog, r *core.Report, ds *core.Describer, f *ss
 			"an attestation's aggregation job can be withheld on a condition that is none of: lookup presence, nil/error, emptiness, IsAggregator, slot < current slot (e.g. a wall-clock comparison inside the slot): a selected aggregator of the slot gets no aggregation job")
 	}
 	r.Floor("C14.d conditions deciding whether the aggregation job is set up", n, 4)
+}
+
+// checkSpecConstantNames: a Service field that is named after a chain-specification constant is filled, in New, from
+// that constant. Returns the number of fields filled from chain constants.
+func checkSpecConstantNames(p *core.Prog, r *core.Report, rule string) int {
+	nSpec := 0
+	var pairs []string
+	for _, f := range p.SrcFuncs() {
+		if f.Name() != "New" || f.Parent() != nil {
+			continue
+		}
+		for _, sl := range core.StructLits(f, "Service") {
+			for fname, v := range sl.Fields {
+				key, ok := specKeyOf(v, 0)
+				if !ok {
+					continue
+				}
+				nSpec++
+				pairs = append(pairs, core.RelPkg(f.Pkg.Pkg.Path())+": "+fname+" <- "+key)
+				// "SyncSubcommittee" is shortened to "SyncCommittee" in one field name: compare without the "sub"
+				nf, nk := strings.ReplaceAll(normName(fname), "sub", ""), strings.ReplaceAll(normName(key), "sub", "")
+				// judged only where the field is named after a constant: its name ends like a constant's name
+				named := strings.HasPrefix(nf, "targetaggregatorsper") || strings.HasPrefix(nf, "synccommittee") || strings.HasPrefix(nf, "slotsper") || strings.HasPrefix(nf, "epochsper") || strings.HasSuffix(nf, "weight") || strings.HasSuffix(nf, "denominator")
+				if !named {
+					continue
+				}
+				r.Check(nf == nk, rule, fmt.Sprintf("%s|%s|read-under-own-name", core.RelPkg(f.Pkg.Pkg.Path()), fname), p.Pos(f.Pos()), fname+" is read from "+key,
+					"field "+fname+" is filled from the chain constant "+key+", not from the constant it is named after: on a chain where the two differ the aggregator selection (committee size / target) is wrong, so validators are marked and scheduled as aggregators contrary to the specification's rule")
+			}
+		}
+	}
+	sort.Strings(pairs)
+	r.Tables["spec-constants"] = pairs
+	return nSpec
 }
